@@ -99,7 +99,13 @@ def _ghost_fill(I, a, k):
     return SArr(new, arr.n, arr.elem)
 
 
+def _env_matches(I, a, k):
+    """the regex matches the environment produced for a pattern key on this path (ghost)"""
+    return list(I.p.ghost.get(('env_matches', a[0]), []))
+
+
 NATIVE = {
+    'env_matches': _env_matches,
     'fill': _ghost_fill,
     'model_cache': _model_cache,
     'amount_shaped': _amount_shaped,
